@@ -136,3 +136,35 @@ Definition xe_wf (x : xentry) : Prop := nob COMMA (xe_raw x) = true /\ trim (xe_
 Definition xe_wfb (x : xentry) : bool :=
   forallb is_ows (xe_pad x) && forallb is_ows (xe_pad' x) && nob COMMA (xe_text x) &&
   beq (trim_start (xe_text x)) (xe_text x) && beq (trim_end (xe_text x)) (xe_text x).
+
+(* ---- the exact language of the parser ----
+   `accepted g` relaxes wf_greq to precisely what Request::from_stream needs: after the colon any text `sep` may
+   precede the value as long as trim_start removes exactly it (Unicode white space included), and only the line as a
+   whole has to be valid UTF-8.  HttpReqProofs.parse_accepts_iff: the parser returns (r, rest) on b exactly when
+   b = render g ++ rest and r = denote g for some accepted g. *)
+Record acc_header (h : gheader) : Prop := {
+  ah_name_colon : nob COLON (gh_name h) = true;
+  ah_name_lf : nob LF (gh_name h) = true;
+  ah_name_u : utf8_valid (gh_name h) = true;
+  ah_sep_lf : nob LF (gh_sep h) = true;
+  ah_value_lf : nob LF (gh_value h) = true;
+  ah_sv_u : utf8_valid (gh_sep h ++ gh_value h) = true;
+  ah_trim : trim_start (gh_sep h ++ gh_value h) = gh_value h }.
+
+Record acc_start (g : greq) : Prop := {
+  as_method : wf_method (g_method g) = true;
+  as_path_sp : nob SP (g_path g) = true;
+  as_path_lf : nob LF (g_path g) = true;
+  as_path_q : nob QMARK (g_path g) = true;
+  as_path_u : utf8_valid (g_path g) = true;
+  as_query : match g_query g with
+             | Some q => nob SP q = true /\ nob LF q = true /\ utf8_valid q = true
+             | None => True
+             end;
+  as_ver_ne : g_version g <> [];
+  as_ver_sp : nob SP (g_version g) = true;
+  as_ver_lf : nob LF (g_version g) = true;
+  as_ver_u : utf8_valid (g_version g) = true }.
+
+Definition accepted (g : greq) : Prop :=
+  acc_start g /\ Forall acc_header (g_headers g) /\ wf_body g = true.
